@@ -296,8 +296,15 @@ def grid_stream(ctx, nmax, cmax):
         except Exception:
             imp = "err"
         replay = {"stream": "grid", "n": n, "ncols": ncols, "missing": missing, "transpose": tr, "impl": imp}
-        if "ok" not in r or int(g.nrows) != r["ok"]["nrows"] or imp != r["ok"]["items"]:
+        if "ok" not in r:
             ctx.disagreement("grid", replay, "model %s" % (r,))
+        elif int(g.nrows) != r["ok"]["nrows"] or imp != r["ok"]["items"]:
+            # the Lean `gridItems` is the specification itself (the C20_grid_* theorems are about it)
+            ctx.violation("grid:items:%s%s" % ("missing" if missing else "data", ":transposed" if tr else ""),
+                          "DataPlotGrid(n=%d, ncols=%d).items(missing=%s, transpose=%s) yields %s (nrows %s), the grid "
+                          "specification gives %s (nrows %s)" % (n, ncols, missing, tr, str(imp)[:120], int(g.nrows),
+                                                                 str(r["ok"]["items"])[:120], r["ok"]["nrows"]),
+                          dict(replay, spec=r["ok"]))
         if not missing:
             # oracle: the property itself on the real output (data + missing cells cover the grid once)
             try:
